@@ -581,6 +581,8 @@ class CallMixin(object):
             for a in args[1:]:
                 res = self.seq_concat(st, self.as_seq(st, res), self.as_seq(st, a))
             return st, res
+        if dotted == "six.iteritems" and len(args) == 1 and args[0].kind == "ref" and args[0].cls == "dict":
+            return st, SV(None, "dictview", py=("items", args[0]))
         if dotted in ("six.text_type", "six.u"):
             return self.bi_str(st, acc, args, kwargs, node)
         if dotted == "six.reraise":
@@ -1474,9 +1476,41 @@ class CallMixin(object):
                 st.heap["$kat"] = z3.Store(self.heap_array(st, "$kat"), r, u.fresh("kat", u.ElemsSort))
                 return st, result
             if name == "update":
-                raise Undecided("dict.update")
+                if len(args) != 1 or kwargs or args[0].cls != "dict" or args[0].z is None:
+                    raise Undecided("dict.update form")
+                if args[0].kind != "ref":
+                    if not self.in_spec:
+                        self.oblige(st, "deref", self.auto_label(node, "deref"), u.is_R(args[0].z),
+                                    note="argument of dict.update is a dictionary (not None)")
+                    st.assume(u.is_R(args[0].z))
+                ro = u.r(args[0].z)
+                has, val = self.heap_array(st, "$has")[r], self.heap_array(st, "$val")[r]
+                ohas, oval = self.heap_array(st, "$has")[ro], self.heap_array(st, "$val")[ro]
+                nh = u.fresh("upd_has", has.sort())
+                nv = u.fresh("upd_val", val.sort())
+                x = u.fresh_val("x")
+                st.assume(z3.ForAll([x], nh[x] == z3.Or(has[x], ohas[x]), patterns=[nh[x]]))
+                st.assume(z3.ForAll([x], nv[x] == z3.If(ohas[x], oval[x], val[x]), patterns=[nv[x]]))
+                st.heap["$has"] = z3.Store(st.heap["$has"], r, nh)
+                st.heap["$val"] = z3.Store(st.heap["$val"], r, nv)
+                for key, nm in (("$dlen", "dlen"), ("$klen", "klen")):
+                    nn = u.fresh_int(nm)
+                    st.assume(nn >= 0)
+                    st.heap[key] = z3.Store(self.heap_array(st, key), r, nn)
+                st.heap["$kat"] = z3.Store(self.heap_array(st, "$kat"), r, u.fresh("kat", u.ElemsSort))
+                return st, self.mk_none()
             if name == "copy":
-                raise Undecided("dict.copy")
+                # a new dictionary with the same keys and values (key order not tracked)
+                d = self.new_dict(st, recv.elem)
+                rn = self.as_ref(d)
+                for key in ("$has", "$val", "$dlen"):
+                    arr = self.heap_array(st, key)
+                    st.heap[key] = z3.Store(arr, rn, arr[r])
+                nk = u.fresh_int("klen")
+                st.assume(nk >= 0)
+                st.heap["$klen"] = z3.Store(self.heap_array(st, "$klen"), rn, nk)
+                st.heap["$kat"] = z3.Store(self.heap_array(st, "$kat"), rn, u.fresh("kat", u.ElemsSort))
+                return st, SV(d.z, "ref", cls="dict", elem=recv.elem)
             raise Undecided("dict.%s" % name)
         if cls == "set":
             if name == "add":
@@ -1543,7 +1577,19 @@ class CallMixin(object):
             if what == "values":
                 st.assume(z3.ForAll([k], z3.Implies(z3.And(0 <= k, k < n), re_(k) == vals[ke(k)])))
                 return res
-            raise Undecided("list(dict.items())")
+            # items(): a block of n new (key, value) tuples in key order
+            base = u.fresh_int("itm")
+            st.assume(base == st.alloc)
+            st.alloc = base + n
+            rel = u.fresh("items", u.ElemsSort)
+            st.heap["$at"] = z3.Store(self.heap_array(st, "$at"), self.as_ref(res), rel)
+            tl, ti = self.tuple_len_f(), self.tuple_item_f()
+            rng = z3.And(0 <= k, k < n)
+            st.assume(z3.ForAll([k], z3.Implies(rng, z3.And(
+                rel[k] == u.R(base + k), u.typeof(base + k) == u.class_id("tuple"), tl(base + k) == 2,
+                ti(base + k, z3.IntVal(0)) == ke(k), ti(base + k, z3.IntVal(1)) == vals[ke(k)],
+                self.heap_array(st, "$has")[r][ke(k)])), patterns=[rel[k]]))
+            return SV(res.z, "ref", cls="list", elem="tuple:any")
         if v.kind == "ref" and v.cls == "set":
             # arbitrary but fixed enumeration order of the set's members
             u = self.u
